@@ -8,7 +8,7 @@ META = {
              'the thorough tier; (b) a second interrupt k2 lines after the first while gated tasks are still executing; '
              '(c) real SIGINT to the process group (workers and manager processes receive it as with a terminal '
              'Ctrl-C) at gate-controlled rest points: single (gates then opened), double (gates never opened) and '
-             'right after a Process.start (worker still bootstrapping). Oracles: O1 run_tasks raises '
+             'right after a Process.start (worker still bootstrapping); (d) interrupts inside the multiprocessing proxy I/O that labtech performs from the calling thread (failpoint on the lines of multiprocessing/connection.py, managers.py, queues.py executed under labtech frames - where a real signal can land but a labtech-line failpoint cannot; code reached from finalizers excluded because CPython swallows exceptions there). Job kinds are interleaved round-robin. Oracles: O1 run_tasks raises '
              'KeyboardInterrupt (no other exception, no normal return); O2 no process launch / serial start after '
              'the interrupt instant (launch ledger, event log); O3 every worker launched before a single interrupt '
              'ends and its result is cached; O4 every entry reported cached afterwards loads its reference value in '
